@@ -8,6 +8,11 @@
      expr_call_check_type  -> ECall / ERecNew  param_expr_list_cmp: count, kinds, const -> var param
      expr_cond_check_type  -> ECond / EIf      bool condition, expr_comb_cmp_and_set on the branches
      EXPR_WHILE/DO/FOR     -> bool condition;  while/do yield CONST int, for yields TEMP int
+     expr_forin_check_type -> EForInRange / EForInArr: the iterable first (range: from, to, then
+                                               both must be int); the loop variable lives in a scope
+                                               of its own around the body: CONST int over a range, the
+                                               element type with the constness of the array expression
+                                               over an array; the body may have any type; TEMP int
      array_check_type      -> EArrLit          elements accepted by the declared type; literal is VAR
      expr_array_deref_*    -> EIndex           CONST iff the array expression is CONST, else VAR
      expr_attr_check_type  -> EField           record fields are VAR (param_list_set_default_var)
@@ -205,6 +210,17 @@ Fixpoint tc_expr (G : env) (e : expr) {struct e} : res binding :=
       bind (tc_expr G init) (fun _ => bind (tc_expr G c) (fun tc =>
       bind (tc_expr G incr) (fun _ => bind (tc_expr G body) (fun _ =>
       if is_bool (fst tc) then Ok (CInt, KTemp) else Err RCond))))
+  | EForInRange x a b body =>
+      bind (tc_expr G a) (fun ta => bind (tc_expr G b) (fun tb =>
+      if is_int (fst ta) && is_int (fst tb) then
+        bind (tc_expr ([(x, (CInt, KConst))] :: G) body) (fun _ => Ok (CInt, KTemp))
+      else Err RForIn))
+  | EForInArr x arr body =>
+      bind (tc_expr G arr) (fun ta =>
+      match fst ta with
+      | CArr e => bind (tc_expr ([(x, (e, snd ta))] :: G) body) (fun _ => Ok (CInt, KTemp))
+      | _ => Err RForIn
+      end)
   | ELambda fd => bind (tc_fdef G true fd) (fun _ => Ok (fd_cty fd, KTemp))
   | EArrLit es t =>
       bind (tc_list (tc_expr G) es) (fun tes =>
@@ -273,5 +289,5 @@ Definition rule_id (r : rule) : nat :=
   | RAssignConst => 0 | RAssignType => 1 | RVarInitConst => 2 | RArgs => 3 | RNotCallable => 4
   | RUndefined => 5 | RAttr => 6 | ROperator => 7 | RCond => 8 | RBranches => 9 | RReturn => 10
   | RRecordArgs => 11 | RArray => 12 | RIndex => 13 | RRedefined => 14 | RSeq => 15
-  | RUnknownType => 16 | RMatch => 17 | RException => 18
+  | RUnknownType => 16 | RMatch => 17 | RException => 18 | RForIn => 19
   end.
